@@ -142,6 +142,8 @@ def build_kwargs(problem, cfg, trace, hooks=None, checkpoint=None, x0=None):
     sc = float(cfg.get("explicit_scale", 1.0))
     kw = {}
 
+    hostile = bool(cfg.get("hostile_user"))
+
     def fun(x, *a):
         i = trace.nf
         trace.nf += 1
@@ -155,7 +157,14 @@ def build_kwargs(problem, cfg, trace, hooks=None, checkpoint=None, x0=None):
         if sc != 1.0:
             v = v * sc
         trace.evals.append(("f", xr, v))
+        if hostile and not np.iscomplexobj(x):
+            try:
+                x[:] = np.nan  # the user overwrites the array it was handed
+            except (ValueError, TypeError):
+                pass
         return v
+
+    gbuf = {}
 
     def jac(x, *a):
         i = trace.ng
@@ -167,6 +176,16 @@ def build_kwargs(problem, cfg, trace, hooks=None, checkpoint=None, x0=None):
         if sc != 1.0:
             v = v * sc
         trace.evals.append(("g", xr, v.copy()))
+        if hostile:
+            # a user who writes every gradient into one preallocated work array, and scribbles on the argument it was given
+            if "buf" not in gbuf:
+                gbuf["buf"] = np.empty_like(v)
+            gbuf["buf"][:] = v
+            try:
+                x[:] = np.nan
+            except (ValueError, TypeError):
+                pass
+            return gbuf["buf"]
         return v
 
     kw["fun"] = fun
@@ -239,6 +258,11 @@ def build_kwargs(problem, cfg, trace, hooks=None, checkpoint=None, x0=None):
             if cbm != "never" and isinstance(cbm, int) and i + 1 >= cbm:
                 rec["ret"] = True
                 return True
+            if hostile:
+                try:
+                    xk[:] = np.nan  # the user recycles the iterate array it was handed
+                except (ValueError, TypeError):
+                    pass
             return False
 
         kw["callback"] = callback
